@@ -169,6 +169,15 @@ class GeneratorVal:
         self.kwargs = kwargs
 
 
+class GeneratorCM:
+    """Result of calling a @contextlib.contextmanager function."""
+
+    def __init__(self, func, args, kwargs):
+        self.func = func
+        self.args = args
+        self.kwargs = kwargs
+
+
 class _Return(Exception):
     def __init__(self, v):
         self.v = v
@@ -628,7 +637,13 @@ class Interp:
             raise Unsupported('augassign target')
 
     def st_Delete(self, st, fr):
+        targets = []
         for t in st.targets:
+            if isinstance(t, (ast.Tuple, ast.List)):
+                targets.extend(t.elts)
+            else:
+                targets.append(t)
+        for t in targets:
             if isinstance(t, ast.Subscript):
                 o = self.eval(t.value, fr)
                 k = self.eval_index(t.slice, fr)
@@ -752,6 +767,8 @@ class Interp:
             return self.exec_block(st.body, fr)
         item = st.items[i]
         mgr = self.eval(item.context_expr, fr)
+        if isinstance(mgr, GeneratorCM):
+            return self._with_generator(st, i, fr, item, mgr)
         enter = self.getattr(mgr, '__enter__')
         exit_ = self.getattr(mgr, '__exit__')
         v = self.call(enter, [], {})
@@ -774,6 +791,45 @@ class Interp:
             raise
         else:
             self.call(exit_, [None, None, None], {})
+
+    def _with_generator(self, st, i, fr, item, mgr):
+        """`with` on a contextlib.contextmanager generator: the generator
+        body is executed and the with-block runs at its (single) yield - an
+        exception of the block surfaces at the yield, exactly as
+        generator.throw() does (A-CTXLIB)."""
+        state = {'yields': 0, 'pending': None}
+
+        def at_yield(value):
+            state['yields'] += 1
+            if state['yields'] > 1:
+                self.throw(RuntimeError, "generator didn't stop")
+            if item.optional_vars is not None:
+                self.assign(item.optional_vars, value, fr)
+            try:
+                self._with(st, i + 1, fr)
+            except (_Return, _Break, _Continue) as cf:
+                state['pending'] = cf
+            return None
+        f = mgr.func
+        loc = self.bind_args(f, mgr.args, mgr.kwargs)
+        if f._locals is None:
+            f._locals = set(loc) | _assigned_names(f.node)
+        gfr = Frame(f, loc, f.closure, f.module, f._locals)
+        old = getattr(self, '_yield_cb', None)
+        self._yield_cb = at_yield
+        self.frames.append(gfr)
+        try:
+            try:
+                self.exec_block(f.node.body, gfr)
+            except _Return:
+                pass
+        finally:
+            self.frames.pop()
+            self._yield_cb = old
+        if state['yields'] == 0:
+            self.throw(RuntimeError, "generator didn't yield")
+        if state['pending'] is not None:
+            raise state['pending']
 
     def st_Raise(self, st, fr):
         if st.exc is None:
@@ -1295,6 +1351,14 @@ class Interp:
             if name == '__doc__':
                 return ast.get_docstring(o.node) if not isinstance(
                     o.node, ast.Lambda) else None
+            if name == '__module__':
+                return o.module.name if o.module else None
+            if name == '__dict__':
+                return o.attrs
+            if name == '__get__':
+                def _get(it_, a, kw, _f=o):
+                    return _f if a[0] is None else BoundMethod(a[0], _f)
+                return Builtin('function.__get__', _get)
             self.throw(AttributeError, "function has no attribute '%s'"
                        % name)
         if isinstance(o, BoundMethod):
@@ -1318,6 +1382,11 @@ class Interp:
             return self.call(v.fget, [selfv], {})
         if isinstance(v, Builtin) and getattr(v, 'is_method', False):
             return BoundMethod(selfv, v)
+        if isinstance(v, Obj):
+            g, _ = v.cls.lookup('__get__')
+            if g is not None:
+                inst = selfv if isinstance(selfv, Obj) else None
+                return self.call(g, [v, inst, cls], {})
         return v
 
     def setattr(self, o, name, v):
